@@ -49,9 +49,15 @@ def _ulp_shift(v, k):
 
 @st.composite
 def path_case(draw):
-    cls = draw(st.sampled_from(['nice', 'nice', 'float', 'float', 'tiny', 'huge', 'huger', 'exp', 'mixed']))
-    num = num_class(cls)
-    arc_ok = cls in ('nice', 'float')
+    cls = draw(st.sampled_from(['nice', 'nice', 'float', 'float', 'tiny', 'huge', 'huger', 'exp', 'mixed', 'scaled']))
+    rscale = 1.0
+    if cls == 'scaled':
+        # a whole drawing at one (possibly extreme) scale, arcs included
+        rscale = 10.0 ** draw(st.one_of(st.integers(-60, 60), st.integers(-12, 12)))
+        num = st.one_of(gen.small_ints, gen.halves, gen.decimals, gen.floats_in(-10.0, 10.0)).map(lambda v: v * rscale)
+    else:
+        num = num_class(cls)
+    arc_ok = cls in ('nice', 'float', 'scaled')
     arc_num = num if arc_ok else num_class('float')
     pt = st.tuples(num, num).map(list)
     apt = st.tuples(arc_num, arc_num).map(list)
@@ -115,11 +121,11 @@ def path_case(draw):
                 big = draw(st.booleans())
                 d = math.hypot(end[0] - cur[0], end[1] - cur[1])
                 if big:
-                    rx = d * draw(gen.floats_in(0.6, 5.0)) + 1e-3
+                    rx = d * draw(gen.floats_in(0.6, 5.0)) + 1e-3 * rscale
                     ry = rx * draw(gen.floats_in(0.3, 3.0))
                 else:
-                    rx = draw(st.one_of(st.sampled_from([1.0, 0.5, 2.0, 10.0]), gen.floats_in(0.01, 50.0)))
-                    ry = draw(st.one_of(st.just(rx), gen.floats_in(0.01, 50.0)))
+                    rx = draw(st.one_of(st.sampled_from([1.0, 0.5, 2.0, 10.0]), gen.floats_in(0.01, 50.0))) * rscale
+                    ry = draw(st.one_of(st.just(rx), gen.floats_in(0.01, 50.0).map(lambda v: v * rscale)))
                 rot = draw(gen.rotations)
                 seg = ['A', cur, [rx, ry], rot, draw(st.integers(0, 1)), draw(st.integers(0, 1)), end]
             segs.append(seg)
